@@ -412,7 +412,15 @@ def rule_N4(F, R):
             R.ok("N4", "base version := the snapshot's version argument", where(b, i))
         else:
             R.violation("N4", b["owner_fn"], "base-version", "set_base_version is not given the snapshot's version", where(b, i))
-        # on every path to Ok
+    # on every successful path: a snapshot installed without its version leaves the replica at the nil
+    # base version, and the versions after the snapshot are never applied
+    from tc.util import error_blocks
+    sbb = {i for i, _t in sb}
+    r_ = c.reachable(0, removed=sbb | error_blocks(c))
+    if any(k in r_ for k in c.exits()):
+        R.violation("N4", b["owner_fn"], "base-version-skipped", "apply_snapshot can return successfully without set_base_version (e.g. for a snapshot with no tasks): the replica stays at the nil base version although the server has discarded the versions before the snapshot", where(b))
+    else:
+        R.ok("N4", "every successful path of apply_snapshot sets the base version", where(b))
     mkf = roles.make_snapshot_fn(F)
     mk = F.real_body(mkf) if mkf else None
     if mk is None or not enc_fn:
@@ -640,6 +648,20 @@ def rule_D(F, R):
         else:
             R.ok("D5", "connection opened on the plain database path (no immutable/nolock/vfs/memory)", where(b, opens[0][0]))
     R.floor("D5", "Connection::open sites in storage::sqlite", no, 1)
+    # who may touch the database files: SQLite alone. The -wal and -shm files carry committed
+    # transactions and the locks shared between processes
+    FS_MUT = re.compile(r"^std::fs::(remove_file|remove_dir|remove_dir_all|rename|write|copy|set_permissions|hard_link)$|^std::fs::File::(create|create_new)$|^std::fs::OpenOptions::open$|::set_len$")
+    nfs = 0
+    for bp, b in sorted(F.bodies.items()):
+        if "storage::sqlite" not in bp:
+            continue
+        for (i, t) in F.calls_in.get(bp, ()):
+            nm = [x for x in call_names(t) if FS_MUT.search(x)]
+            if nm:
+                nfs += 1
+                R.violation("D5", F.owner(bp), "database-file-touched:" + nm[0].split("::")[-1], "storage::sqlite calls %s: the files next to the database (-wal, -shm) hold committed transactions and the inter-process locks; removing or rewriting them behind SQLite's back loses commits or the mutual exclusion of two processes" % nm[0], where(b, i))
+    if not nfs:
+        R.ok("D5", "storage::sqlite never modifies files itself (only create_dir_all of the directory and SQLite)", None)
 
 
 def rule_Q4(F, R):
@@ -738,6 +760,20 @@ def rule_D6(F, R):
         else:
             R.ok("D6", "%s fields: %s" % (im["self"], [f["name"] for f in adt["variants"][0]["fields"]]), loc(adt["sp"]))
     R.floor("D6", "SQLite storage handle structs", n, 1)
+    # the transaction object: the rusqlite transaction and the access mode; a value remembered next to them
+    # (a next index, a count) goes stale when another method of the same transaction changes the table
+    TXN_OK = {"access_mode"}
+    nt = 0
+    for k, a in sorted(F.adts.items()):
+        if not k.startswith("storage::sqlite::inner::Txn"):
+            continue
+        nt += 1
+        bad = [(f["name"], f["ty"]) for f in a["variants"][0]["fields"] if not (re.search(r"rusqlite::Transaction<", f["ty"]) or f["ty"] == "storage::config::AccessMode")]
+        if bad:
+            R.violation("D6", k, "data-cached-in-transaction:%s" % bad[0][0], "the SQLite transaction object keeps `%s: %s` beside the rusqlite transaction: a value derived from a table is stale as soon as another method of the same transaction changes that table" % bad[0], loc(a["sp"]))
+        else:
+            R.ok("D6", "%s fields: %s" % (k, [f["name"] for f in a["variants"][0]["fields"]]), loc(a["sp"]))
+    R.floor("D6", "SQLite transaction structs", nt, 1)
     # the layers above the storage: TaskDb and Replica are per-handle objects as well; replica data kept in
     # them between transactions is not updated by another handle's commit
     DERIVED_OK = {("replica::Replica", "depmap"): "derived data, rebuilt on request (dependency_map(force)) and dropped by every method of this handle that writes tasks (rule M9)"}
@@ -916,3 +952,45 @@ def rule_Q5(F, R):
             continue
     R.ok("Q5", "schema model after the upgrades: %s" % "; ".join("%s(%s)" % (t_, ", ".join(sorted(cs))) for t_, cs in sorted(tables.items())), None)
     R.info("Q5", "table rebuilds examined: %d" % nrebuild)
+
+
+def rule_Q7(F, R):
+    R.begin("Q7", "sibling agreement of sync_complete: like the in-memory storage, the SQLite transaction marks every unsynchronised operation as synchronised and removes the operations of tasks that no longer exist - all of them, whether they were synchronised earlier or just now (a task deleted after its first operations were synchronised must not keep those)")
+    import roles
+    im = sqlite_txn_impl(F)
+    b = None
+    if im:
+        for it in im["items"]:
+            if it["name"] == "sync_complete":
+                b = F.real_body(it["path"])
+    if b is None:
+        R.missing("Q7", "the SQLite transaction's sync_complete")
+        return
+    sqls = [" ".join(sv.replace("\\n", " ").split()) for (_i, sv) in roles.sql_in_body(F, b) if re.match(r"^\s*(UPDATE|DELETE)\b", sv, re.I)]
+    upd = [q for q in sqls if re.match(r"UPDATE operations SET synced\s*=\s*(true|1)", q, re.I)]
+    dele = [q for q in sqls if re.match(r"DELETE from operations", q, re.I)]
+    if not upd:
+        R.violation("Q7", b["owner_fn"], "no-mark-synced", "sync_complete does not mark the unsynchronised operations as synchronised", where(b))
+    else:
+        R.ok("Q7", "marks operations synchronised: %s" % upd[0][:80], where(b))
+    if not dele:
+        R.violation("Q7", b["owner_fn"], "no-orphan-removal", "sync_complete does not remove the operations of tasks that no longer exist", where(b))
+        return
+    for q in dele:
+        m = re.search(r"\bWHERE\b(.*)$", q, re.I)
+        outer = m.group(1) if m else ""
+        # the condition outside any sub-select
+        depth, flat = 0, ""
+        for ch in outer:
+            if ch == "(":
+                depth += 1
+            elif ch == ")":
+                depth -= 1
+            elif depth == 0:
+                flat += ch
+        if not re.search(r"\btasks\b", q, re.I):
+            R.violation("Q7", b["owner_fn"], "orphan-test", "the removal of operations is not tied to the task no longer existing: %s" % q[:100], where(b))
+        elif re.search(r"\bsynced\b", flat, re.I):
+            R.violation("Q7", b["owner_fn"], "orphan-removal-restricted-by-synced", "the removal of orphaned operations is restricted by the `synced` flag (%s): operations synchronised earlier stay behind when their task is deleted later, unlike in the in-memory storage" % flat.strip()[:80], where(b))
+        else:
+            R.ok("Q7", "orphaned operations removed regardless of the synced flag", where(b))
